@@ -147,6 +147,58 @@ func extractF4(repo string, o *out) {
 		}
 		fmt.Fprintln(b)
 	}
+	// v2: a loaded script is plain data and every Run / Check works on a task made for it
+	{
+		f, _, err := parseFile(filepath.Join(repo, "pkg/engine/runtimev2/runtime.go"))
+		if err != nil {
+			ok = false
+			note = err.Error()
+		} else {
+			emit("v2ScriptFields", structFields(f, "Script"))
+			emit("v2TaskFields", structFields(f, "Task"))
+			for _, fn := range []string{"Run", "Check"} {
+				fresh := false
+				found := false
+				for _, d := range f.Decls {
+					fd, isF := d.(*ast.FuncDecl)
+					if !isF || fd.Name.Name != fn || fd.Recv == nil || fd.Body == nil {
+						continue
+					}
+					found = true
+					// the first statement of the body is `x := NewTask(...)`
+					if len(fd.Body.List) > 0 {
+						if as, isA := fd.Body.List[0].(*ast.AssignStmt); isA && len(as.Rhs) == 1 {
+							if ce, isC := as.Rhs[0].(*ast.CallExpr); isC {
+								if id, isI := ce.Fun.(*ast.Ident); isI && id.Name == "NewTask" {
+									fresh = true
+								}
+							}
+						}
+					}
+				}
+				if !found {
+					ok = false
+					note = "runtimev2 (*Script)." + fn + " not found"
+				}
+				fmt.Fprintf(b, "def v2%sMakesTask : Bool := %v\n", fn, fresh)
+			}
+			// package-level variables of runtimev2/runtime.go (state that outlives a run)
+			vars := []string{}
+			for _, d := range f.Decls {
+				if gd, isG := d.(*ast.GenDecl); isG && gd.Tok.String() == "var" {
+					for _, sp := range gd.Specs {
+						if vs, isV := sp.(*ast.ValueSpec); isV {
+							for _, n := range vs.Names {
+								vars = append(vars, n.Name)
+							}
+						}
+					}
+				}
+			}
+			emit("v2RuntimeVars", vars)
+			fmt.Fprintln(b)
+		}
+	}
 	fmt.Fprintf(b, "def extractOk_F4 : Bool := %v\n", ok)
 	fmt.Fprintf(b, "def extractNote_F4 : String := %q\n", note)
 	fmt.Fprintf(b, "\nend Platypus.Generated\n")
